@@ -111,6 +111,22 @@ def grid(params: Dict) -> nx.MultiDiGraph:
                 g.add_edge(a, t, **d)
         if not nx.is_strongly_connected(g):
             raise RuntimeError("stub construction broke connectivity")
+    # dead-end spurs: a driveway of 3-10 m off a junction (both directions); at ordinary speeds it takes less than a second
+    p_spur = float(params.get("spurs", 0.0))
+    if p_spur > 0:
+        nxt = max(g.nodes()) + 1
+        for u in [x for x in g.nodes() if x < n * n]:
+            if rnd.random() >= p_spur:
+                continue
+            t = nxt
+            nxt += 1
+            dy = rnd.choice([-1, 1]) * rnd.uniform(2e-5, 6e-5)
+            dx = rnd.choice([-1, 1]) * rnd.uniform(2e-5, 6e-5)
+            g.add_node(t, y=g.nodes[u]["y"] + dy, x=g.nodes[u]["x"] + dx, spur=True)
+            d = _gc_m((g.nodes[u]["y"], g.nodes[u]["x"]), (g.nodes[t]["y"], g.nodes[t]["x"]))
+            sp = rnd.choice(speeds)
+            g.add_edge(u, t, length=d, speed_kmph=sp)
+            g.add_edge(t, u, length=d, speed_kmph=sp)
     return g
 
 
@@ -140,6 +156,10 @@ def denver() -> nx.MultiDiGraph:
 
 def manhattan() -> nx.MultiDiGraph:
     return load_json_graph(MANHATTAN_DIR / "road_network" / "manhattan_network.json")
+
+
+def spur_points(g: nx.MultiDiGraph):
+    return [(d["y"], d["x"]) for _, d in g.nodes(data=True) if d.get("spur")]
 
 
 def node_points(g: nx.MultiDiGraph):
